@@ -248,7 +248,7 @@ def processRequestHeader (data : Bytes) (c : Conn) : R :=
     if hasFlag e.flags FIELD_REPEATED && t.reqHeaderRepetitions ≥ MAX_HEADERS_REPETITIONS then (c, .ok) else
     let reps := if hasFlag e.flags FIELD_REPEATED then t.reqHeaderRepetitions + 1 else t.reqHeaderRepetitions
     let e := { e with flags := setFlag e.flags FIELD_REPEATED }
-    let e := if Bstr.cmpMemNocase h.name (strBytes "Content-Length") == 0 then e
+    let e := if Bstr.cmpMemNocase h.name (b!"Content-Length") == 0 then e
              else { e with value := e.value ++ [0x2c, 0x20] ++ h.value }
     (c.modIn (fun t => { t with reqHeaders := t.reqHeaders.set i e, reqHeaderRepetitions := reps }), .ok)
 
@@ -267,13 +267,13 @@ def processResponseHeader (data : Bytes) (c : Conn) : R :=
     if hasFlag e.flags FIELD_REPEATED && t.resHeaderRepetitions ≥ MAX_HEADERS_REPETITIONS then (c, .ok) else
     let reps := if hasFlag e.flags FIELD_REPEATED then t.resHeaderRepetitions + 1 else t.resHeaderRepetitions
     let e := { e with flags := setFlag e.flags FIELD_REPEATED }
-    let e := if Bstr.cmpMemNocase h.name (strBytes "Content-Length") == 0 then e
+    let e := if Bstr.cmpMemNocase h.name (b!"Content-Length") == 0 then e
              else { e with value := e.value ++ [0x2c, 0x20] ++ h.value }
     (c.modOut (fun t => { t with resHeaders := t.resHeaders.set i e, resHeaderRepetitions := reps }), .ok)
 
 /-- htp_table_get_c on a header list: first entry whose name (NULs skipped) equals `key` case-insensitively -/
-def getHeaderC (hs : List Header) (key : String) : Option Header :=
-  hs.find? (fun e => Bstr.cmpMemNocaseNorzero e.name (strBytes key) == 0)
+def getHeaderC (hs : List Header) (key : Bytes) : Option Header :=
+  hs.find? (fun e => Bstr.cmpMemNocaseNorzero e.name key == 0)
 
 /-- result of the T-E / C-L arbitration of htp_tx_process_request_headers -/
 structure Framing where
@@ -284,11 +284,11 @@ structure Framing where
 
 /-- the arbitration itself, as a pure function of the header table and the protocol number -/
 def requestFraming (hs : List Header) (protocolNumber : Int) (flags : Nat) : Framing :=
-  let cl := getHeaderC hs "content-length"
-  let te := getHeaderC hs "transfer-encoding"
+  let cl := getHeaderC hs (b!"content-length")
+  let te := getHeaderC hs (b!"transfer-encoding")
   match te with
   | some te =>
-    if !headerHasToken te.value (strBytes "chunked") then
+    if !headerHasToken te.value (b!"chunked") then
       { coding := CODING_INVALID, contentLength := -1, flags := flags ||| REQUEST_INVALID_T_E ||| REQUEST_INVALID }
     else
       let flags := if protocolNumber < PROTOCOL_1_1 then flags ||| REQUEST_INVALID_T_E ||| REQUEST_SMUGGLING else flags
@@ -307,7 +307,7 @@ def requestFraming (hs : List Header) (protocolNumber : Int) (flags : Nat) : Fra
 /-- host determination of htp_tx_process_request_headers: (hostname, port, flags) -/
 def requestHost (hs : List Header) (uriHost : Option Bytes) (uriPort : Int) (protocolNumber : Int) (flags : Nat) :
     Option Bytes × Int × Nat :=
-  match getHeaderC hs "host" with
+  match getHeaderC hs (b!"host") with
   | none => (uriHost, uriPort, if protocolNumber ≥ PROTOCOL_1_1 then flags ||| HOST_MISSING else flags)
   | some h =>
     let hp := Uri.parseHostport h.value
@@ -329,16 +329,16 @@ def requestHost (hs : List Header) (uriHost : Option Bytes) (uriPort : Int) (pro
 def txProcessRequestHeaders (cfg : Cfg) (uid : Nat) (c : Conn) : R :=
   let t := (c.findTx uid).getD { uid := uid }
   -- request decompression (off by default; the model flags it unsupported when a decompressor is built)
-  let ce := getHeaderC t.reqHeaders "content-encoding"
+  let ce := getHeaderC t.reqHeaders (b!"content-encoding")
   let needDec := cfg.requestDecompression && (match ce with
-    | some ce => ["gzip", "x-gzip", "deflate", "x-deflate", "lzma"].any
-        (fun n => Bstr.cmpMemNocaseNorzero ce.value (strBytes n) == 0)
+    | some ce => [(b!"gzip"), (b!"x-gzip"), (b!"deflate"), (b!"x-deflate"), (b!"lzma")].any
+        (fun n => Bstr.cmpMemNocaseNorzero ce.value n == 0)
     | none => false)
   let c := if needDec then { c with reqDecompressor := true, unsupported := true } else c
   let fr := requestFraming t.reqHeaders t.protocolNumber t.flags
   let t := { t with reqTransferCoding := fr.coding, flags := fr.flags,
-                    reqContentLength := if (getHeaderC t.reqHeaders "transfer-encoding").isNone &&
-                                            (getHeaderC t.reqHeaders "content-length").isSome
+                    reqContentLength := if (getHeaderC t.reqHeaders (b!"transfer-encoding")).isNone &&
+                                            (getHeaderC t.reqHeaders (b!"content-length")).isSome
                                         then fr.contentLength else t.reqContentLength }
   -- PUT with a body is treated as a file upload
   let hasBody := t.reqTransferCoding == CODING_IDENTITY || t.reqTransferCoding == CODING_CHUNKED
@@ -348,19 +348,19 @@ def txProcessRequestHeaders (cfg : Cfg) (uid : Nat) (c : Conn) : R :=
   let (hn, pn, flags) := requestHost t.reqHeaders un.hostname un.portNumber t.protocolNumber t.flags
   let t := { t with hostname := hn, portNumber := pn, flags := flags }
   -- content type
-  let t := match getHeaderC t.reqHeaders "content-type" with
+  let t := match getHeaderC t.reqHeaders (b!"content-type") with
     | some ct => { t with reqContentType := some (parseCtHeader ct.value) }
     | none => t
   -- cookies
   let t := if cfg.parseRequestCookies then
-      (match getHeaderC t.reqHeaders "cookie" with
+      (match getHeaderC t.reqHeaders (b!"cookie") with
        | some ck => { t with cookies := some (parseCookies ck.value) }
        | none => t)
     else t
   -- authorization
   let (t, authErr) : Tx × Bool :=
     if cfg.parseRequestAuth then
-      (match getHeaderC t.reqHeaders "authorization" with
+      (match getHeaderC t.reqHeaders (b!"authorization") with
        | none => ({ t with authType := 1 }, false)
        | some a =>
          match parseAuthorization a.value with
@@ -378,7 +378,7 @@ def txProcessRequestHeaders (cfg : Cfg) (uid : Nat) (c : Conn) : R :=
       let t := (c.findTx uid).getD t
       match t.reqContentType with
       | some ct =>
-        if Bstr.beginsWithMem ct (strBytes "application/x-www-form-urlencoded") then
+        if Bstr.beginsWithMem ct (b!"application/x-www-form-urlencoded") then
           c.setTx { t with urlenBody := some {} }
         else c
       | none => c
@@ -464,14 +464,14 @@ def txStateResponseCompleteEx (cfg : Cfg) (uid : Nat) (c : Conn) : R :=
 
 /-- the Content-Encoding analysis of htp_tx_state_response_headers: does the response need a decompressor? -/
 def responseNeedsDecompressor (cfg : Cfg) (t : Tx) : Nat × Bool :=
-  match getHeaderC t.resHeaders "content-encoding" with
+  match getHeaderC t.resHeaders (b!"content-encoding") with
   | none => (1, false)
   | some ce =>
-    let is (n : String) := Bstr.cmpMemNocaseNorzero ce.value (strBytes n) == 0
-    if is "gzip" || is "x-gzip" then (2, cfg.responseDecompression)
-    else if is "deflate" || is "x-deflate" then (3, cfg.responseDecompression)
-    else if is "lzma" then (4, cfg.responseDecompression)
-    else if is "inflate" then (1, false)
+    let is (n : Bytes) := Bstr.cmpMemNocaseNorzero ce.value n == 0
+    if is (b!"gzip") || is (b!"x-gzip") then (2, cfg.responseDecompression)
+    else if is (b!"deflate") || is (b!"x-deflate") then (3, cfg.responseDecompression)
+    else if is (b!"lzma") then (4, cfg.responseDecompression)
+    else if is (b!"inflate") then (1, false)
     else (1, cfg.responseDecompression)    -- ce_multi_comp: token list is examined (model: unsupported)
 
 /-- htp_tx_state_response_headers -/
